@@ -88,6 +88,15 @@ func (p *provider) Instance(ctx context.Context, ips ...gostatsd.Source) (map[go
 	return nil, errors.New("boom")
 }
 
+// limiterFor: every other schedule runs with a finite rate and a burst smaller than a batch can be (the shipped defaults are like
+// that: burst 15, AWS batches of up to 32); the wait is per call, whatever the size of the batch
+func limiterFor(idx int) *rate.Limiter {
+	if idx%2 == 1 {
+		return rate.NewLimiter(1000, 2)
+	}
+	return rate.NewLimiter(rate.Inf, 1)
+}
+
 func runSchedule(t *testing.T, tw *trace.Writer, c *scase, idx int, res *vh.Result) {
 	defer func() {
 		// goroutines that stay blocked for ever make the bubble panic on exit; the trace written so far is still judged
@@ -103,7 +112,7 @@ func runSchedule(t *testing.T, tw *trace.Writer, c *scase, idx int, res *vh.Resu
 		logger := logrus.New()
 		logger.SetLevel(logrus.PanicLevel)
 		p := &provider{tw: tw, outcome: "full", limit: c.Lim}
-		ccp := cloudprovider.NewCachedCloudProvider(logger, rate.NewLimiter(rate.Inf, 1), p, gostatsd.CacheOptions{
+		ccp := cloudprovider.NewCachedCloudProvider(logger, limiterFor(idx), p, gostatsd.CacheOptions{
 			CacheRefreshPeriod: refresh * time.Second, CacheEvictAfterIdlePeriod: idle * time.Second, CacheTTL: ttl * time.Second, CacheNegativeTTL: negttl * time.Second})
 		st := fakes.NewStatser()
 		var wg sync.WaitGroup
